@@ -5,8 +5,9 @@
 (*   on the corners of an integer rectangle (SHAPES: 96 x 96 / 96 x 136 -  *)
 (*   a change of shape makes the step "different tissue", mapping None)    *)
 (*   x ALL numberings of every frame (which id sits on which corner;       *)
-(*     CANON1: frame 1 sorted - relabelling all frames is a symmetry)      *)
-(*   x per step ALL partial injective maps (GUESSMAX = -1) handed to the   *)
+(*     the first CANON frames sorted - relabelling a frame is a symmetry  *)
+(*     of the model; ONESET: one set of corners per k)                     *)
+(*   x per step ALL partial injective maps (GUESSMAX = 99) handed to the   *)
 (*     tracker as initial guess, or guesses with at most GUESSMAX pairs    *)
 (*   x unequal integer time stamps (StampsTab).                            *)
 (* The correspondence of every step IS the tracker's answer               *)
@@ -29,10 +30,27 @@
 (* accumulating store.  A hash-selected sample of the leaves is printed    *)
 (* (`EJ {json}`, the complete series and the complete list of queries) and *)
 (* replayed on real Frame / ForSys / TimeSeries objects.                   *)
+(*                                                                         *)
+(* Registered configurations (harness/props/tsqueries.py):                 *)
+(*  quick    MC_SeriesQueries          NF 3, k 2..3, far, all maps         *)
+(*           _nf2    NF 2, k 2..4, far, all maps                           *)
+(*           _skip   NF 3, two shapes (skipped steps), <= 1 guess per step *)
+(*           _near   NF 3, drifting frames, all corner sets, frame 3 in    *)
+(*                   every numbering, no guess (tracker by proximity)      *)
+(*           _hist   NF 2, the state machine with one / two queries        *)
+(*  thorough _thorough  NF 3, frames 2 and 3 in every numbering, all maps  *)
+(*           _allsets   NF 3, every set of corners, all maps               *)
+(*           _nf4       NF 4, k 3, all maps (34^3 per placement)           *)
+(*           _nf2_thorough  NF 2, k 2..4, two shapes, every corner set and *)
+(*                   every numbering of frame 2, all maps                  *)
+(*           _skip_thorough NF 4, k 2..3, two shapes, <= 1 guess per step  *)
+(*           _near_thorough NF 3, drifting, every corner set, ALL dict     *)
+(*                   orders; _near_guess: numberings x one stolen partner  *)
+(*           _hist_thorough NF 3, all maps, one / two queries              *)
 (***************************************************************************)
 EXTENDS SeriesQueries, Json
 
-CONSTANTS NF, KS, SHAPES, FAR, CANON1, GUESSMAX, ALLORDERS, EMITMOD, HIST
+CONSTANTS NF, KS, SHAPES, FAR, CANON, ONESET, GUESSMAX, ALLORDERS, EMITMOD, HIST
 
 \* ---- constant tables ------------------------------------------------------------------------
 Corner(sh) == IF sh = 1 THEN <<<<0, 0>>, <<96, 0>>, <<96, 96>>, <<0, 96>>>>
@@ -42,6 +60,14 @@ OriginNear == <<<<0, 0>>, <<3, 2>>, <<4, 6>>, <<9, 7>>>>
 Origin == IF FAR THEN OriginFar ELSE OriginNear
 StampsTab == <<<<0, 1, 3, 7>>, <<2, 3, 8, 9>>, <<-3, 0, 1, 5>>, <<0, 2, 3, 4>>, <<5, 9, 10, 12>>>>
 
+KS2 == {2}
+KS3 == {3}
+KS23 == {2, 3}
+KS34 == {3, 4}
+KS234 == {2, 3, 4}
+ShapesA == {1}
+ShapesAB == {1, 2}
+
 VARIABLES fr, gs, asked
 vars == <<ser, store, out, fr, gs, asked>>
 
@@ -49,14 +75,16 @@ vars == <<ser, store, out, fr, gs, asked>>
 \* the corners used by a frame must span the whole rectangle (so that the shape is the rectangle's)
 Spans(S) == /\ Cardinality({Corner(1)[c][1] : c \in S}) = 2 /\ Cardinality({Corner(1)[c][2] : c \in S}) = 2
 Increasing(pl) == \A a, b \in DOMAIN pl : a < b => pl[a] < pl[b]
+OneSet(k) == IF k = 2 THEN {1, 3} ELSE 1..k
 Placements(k, canon) == {pl \in [1..k -> 1..4] : /\ \A a, b \in 1..k : a # b => pl[a] # pl[b]
                                                   /\ Spans(Range(pl))
+                                                  /\ (ONESET => Range(pl) = OneSet(k))
                                                   /\ (canon => Increasing(pl))}
 PermsOf(k) == {o \in [1..k -> 1..k] : \A a, b \in 1..k : a # b => o[a] # o[b]}
 Ident(k) == [i \in 1..k |-> i]
 NonZero(m) == {i \in DOMAIN m : m[i] # 0}
 PartialInj(k0, k1) == {m \in [1..k0 -> 0..k1] : /\ \A a, b \in 1..k0 : (a # b /\ m[a] # 0) => m[a] # m[b]
-                                                /\ (GUESSMAX >= 0 => Cardinality(NonZero(m)) <= GUESSMAX)}
+                                                /\ Cardinality(NonZero(m)) <= GUESSMAX}
 PairsOf(m) == LET RECURSIVE F(_)
                   F(i) == IF i > Len(m) THEN <<>> ELSE (IF m[i] # 0 THEN <<<<i, m[i]>>>> ELSE <<>>) \o F(i + 1)
               IN  F(1)
@@ -85,10 +113,10 @@ Build == [nf |-> NF,
           ims |-> [f \in 1..(NF - 1) |-> IMapping(StepIn(f))],
           ifc |-> [F \in 1..NF |-> IfcOf(KOf(F))]]
 
-Init == ser = NoSeries /\ store = EmptyStore /\ out = NoOut /\ fr = <<>> /\ gs = <<>> /\ asked = <<0, 0>>
+Init == ser = NoSeries /\ store = EmptyStore /\ out = NoOut /\ fr = <<>> /\ gs = <<>> /\ asked = <<0, 0, 0>>
 
 PickFrame == /\ Len(fr) < NF
-             /\ \E sh \in SHAPES : \E k \in KS : \E pl \in Placements(k, CANON1 /\ Len(fr) = 0) :
+             /\ \E sh \in SHAPES : \E k \in KS : \E pl \in Placements(k, Len(fr) < CANON) :
                 \E o \in (IF ALLORDERS THEN PermsOf(k) ELSE {Ident(k)}) :
                    fr' = Append(fr, [sh |-> sh, pl |-> pl, o |-> o])
              /\ UNCHANGED <<ser, store, out, gs, asked>>
@@ -100,17 +128,20 @@ Run == /\ Len(gs) = NF - 1 /\ ser.nf = 0
        /\ \E x \in {Build} : ser' = x
        /\ UNCHANGED <<store, out, fr, gs, asked>>
 \* the state machine proper: up to two public queries on the constructed series
-MAsk == /\ HIST /\ ser.nf > 0 /\ asked[2] < 200
+\* (any query first; a second one only after whole_tissue_velocity, the query whose answer depends on the store)
+MAsk == /\ HIST /\ ser.nf > 0 /\ asked[3] < 2
         /\ \E q \in Queries(ser) :
+             /\ asked[3] = 1 => (out[1][1] = "wvel" /\ q[1] = "wvel")
              /\ Ask(q)
              /\ asked' = IF q[1] = "wvel" /\ ~SNone(ser, VStep(ser, q[2] + 1))
-                         THEN <<Max(asked[1], asked[2] % 100), 100 + asked[2] + NIfc(ser, q[2] + 1) - (asked[2] % 100)>>
-                         ELSE <<asked[1], asked[2] + 100>>
+                         THEN <<Max(asked[1], asked[2]), NIfc(ser, q[2] + 1), asked[3] + 1>>
+                         ELSE <<asked[1], asked[2], asked[3] + 1>>
         /\ UNCHANGED <<fr, gs>>
 Next == PickFrame \/ PickGuess \/ Run \/ MAsk
 Spec == Init /\ [][Next]_vars
 
-Leaf == ser.nf > 0
+Leaf == ser.nf > 0 /\ out = NoOut        \* once per series (HIST: not again after every query)
+Built == ser.nf > 0
 V(F) == 1..ser.k[F]
 Fs == 1..ser.nf
 
@@ -134,7 +165,7 @@ CVPos == \A t0 \in 0..(ser.nf - 1) : \A tm \in TMs(t0) : \A v \in V(t0 + 1) :
            IN  IF d[1] = "list" THEN i = d
                ELSE \/ i = <<"raised", "key">>
                     \/ KF_QuerySkippedStep(sk, IF i[1] = "list" THEN "value" ELSE i[2])
-CVel == \A F \in Fs : \A p \in V(F) : IVelocity(ser, p, F) = Velocity(ser, p, F)
+CVel == \A F \in Fs : \A p \in V(F) : IQVelocity(ser, p, F) = Velocity(ser, p, F)
 CEdge == \A F0 \in Fs : \A G \in F0..ser.nf : \A e \in 1..NIfc(ser, F0) :
            LET a == ser.ifc[F0][e][1]  b == ser.ifc[F0][e][2]
                d == EdgeStepVel(ser, a, b, F0, G)  i == IEdgeStepVel(ser, a, b, F0, G)
@@ -142,8 +173,8 @@ CEdge == \A F0 \in Fs : \A G \in F0..ser.nf : \A e \in 1..NIfc(ser, F0) :
                ELSE \/ i = <<"nan">>
                     \/ KF_QuerySkippedStep(SpanNone(ser, F0, G), IF i[1] = "sum" THEN "value" ELSE i[1])
 CTtu == /\ \A L \in 2..ser.nf : ITimesToUse(ser, L) = <<"list", TimesToUse(ser, L)>>
-        /\ ITimesToUse(ser, "default") = <<"list", TimesToUse(ser, ser.nf)>>
-        /\ \A a \in {"true", 1} : LET i == ITimesToUse(ser, a) IN
+        /\ ITimesToUse(ser, -1) = <<"list", TimesToUse(ser, ser.nf)>>
+        /\ \A a \in {-2, 1} : LET i == ITimesToUse(ser, a) IN
               i[1] = "list" \/ KF_TimesToUseTrue(a, IF i[1] = "unbound" THEN "UnboundLocalError" ELSE "KeyError")
 \* two whole_tissue_velocity queries in a row: the second answer has exactly the interfaces of its frame, each with
 \* the declarative value - or the recorded finding (surplus keys of the frame asked before)
@@ -222,10 +253,10 @@ InvWhole    == Leaf => CWhole
 InvExport   == Leaf => CExport /\ CReimport
 InvCm       == Leaf => CCm
 InvForced   == Leaf => CForced
-InvMachine  == Leaf => CAnswer /\ CStore
+InvMachine  == Built => CAnswer /\ CStore
 
 (* ======================================================================= *)
-(* emission of a sample of the leaves (asked = <<0, 0>>: once per series)  *)
+(* emission of a sample of the leaves (asked = <<0, 0, 0>>: once per series)  *)
 (* ======================================================================= *)
 AnyNone   == \E f \in 1..(NF - 1) : SNone(ser, f)
 Lost      == \E f \in 1..(NF - 1) : ~SNone(ser, f) /\ \E p \in V(f) : Succ(ser, f, p) = Undef
@@ -250,7 +281,7 @@ Sampled(h) == \/ (h % EMITMOD = 0 /\ NonTrivial)
               \/ (h % (EMITMOD \div 3 + 1) = 1 /\ AnyNone)
               \/ (h % (EMITMOD \div 2 + 1) = 2 /\ Lost /\ Appears /\ SizeChange)
               \/ h % (5 * EMITMOD + 1) = 3
-CEmit == (asked = <<0, 0>> /\ out = NoOut /\ Sampled(ChoiceHash)) =>
+CEmit == (asked = <<0, 0, 0>> /\ out = NoOut /\ Sampled(ChoiceHash)) =>
   PrintT("EJ " \o ToJson([nf |-> NF, k |-> ser.k, pos |-> ser.pos, ord |-> ser.ord, guess |-> ser.guess,
                           stamps |-> ser.stamp, far |-> FAR,
                           none |-> [f \in 1..(NF - 1) |-> SNone(ser, f)],
